@@ -297,7 +297,183 @@ Qed.
 
 Lemma slot_lists_example :
   exists m, build_modules_for_cds
-      [mkComp 41 1 0 10; mkComp 1 0 1 20; mkComp 1 0 2 30; mkComp 28 0 3 40; mkComp 11 0 4 50] = Ok [m] /\
+      [mkComp 41 [Hit 1 []] 0 10; mkComp 1 [] 1 20; mkComp 1 [] 2 30; mkComp 28 [] 3 40; mkComp 11 [] 4 50] = Ok [m] /\
     reload m = Ok m /\ map cid (m_mods m) = [3; 4] /\ map cid (m_others m) = [2] /\
     map cid (others_pos (m_comps m)) = [2].
 Proof. eexists. split; [vm_compute; reflexivity|]. repeat split. Qed.
+
+(* ====================================================================================== *)
+(* subtypes: a component carries the LIST of its domain's subtype hits (HMMResult.internal_hits); *)
+(* Component.subtype / subtypes go through HMMResult.detailed_names                          *)
+(* ====================================================================================== *)
+
+(* detailed_names[1:] as a relation on the hits: one name per depth while the depth holds exactly one hit *)
+Inductive chain : list hit -> list Z -> Prop :=
+| chain_stop hs : (forall x, hs <> [x]) -> chain hs []
+| chain_step i hs ns : chain hs ns -> chain [Hit i hs] (i :: ns).
+
+Lemma names_from_chain : forall h, chain [h] (names_from h).
+Proof.
+  fix IH 1. intros [i hs]. cbn [names_from].
+  destruct hs as [|x [|y r]].
+  - apply chain_step. apply chain_stop. intros x; discriminate.
+  - apply chain_step. apply IH.
+  - apply chain_step. apply chain_stop. intros z; discriminate.
+Qed.
+
+Lemma detailed_tail_chain hs : chain hs (detailed_tail hs).
+Proof.
+  destruct hs as [|x [|y r]]; cbn [detailed_tail].
+  - apply chain_stop. intros x; discriminate.
+  - apply names_from_chain.
+  - apply chain_stop. intros z; discriminate.
+Qed.
+
+Lemma chain_unique : forall hs ns, chain hs ns -> forall ns', chain hs ns' -> ns = ns'.
+Proof.
+  induction 1 as [hs Hn|i hs ns _ IH]; intros ns' H'.
+  - inversion H' as [|i' hs' ns0 _ E]; subst; [reflexivity|]. exfalso. exact (Hn _ eq_refl).
+  - inversion H' as [hs0 Hn|i' hs' ns0 Hc]; subst.
+    + exfalso. exact (Hn _ eq_refl).
+    + f_equal. apply IH. exact Hc.
+Qed.
+
+(* Component.subtypes is THE chain of single hits below the domain *)
+Lemma subtypes_chain c ns : subtypes c = ns <-> chain (sub c) ns.
+Proof.
+  unfold subtypes. split.
+  - intros <-. apply detailed_tail_chain.
+  - intros H. apply (chain_unique _ _ (detailed_tail_chain (sub c)) _ H).
+Qed.
+
+(* Component.subtype = Some k iff the domain holds exactly one first-level subtype hit, named k *)
+Lemma subtype_some_iff c k : subtype c = Some k <-> exists hs, sub c = [Hit k hs].
+Proof.
+  rewrite subtype_spec. unfold spec_subtype. split.
+  - destruct (sub c) as [|[i hs] [|y r]]; try discriminate. intros H; inversion H; subst. eexists; reflexivity.
+  - intros [hs ->]. reflexivity.
+Qed.
+Lemma subtype_none_iff c : subtype c = None <-> length (sub c) <> 1%nat.
+Proof.
+  rewrite subtype_spec. unfold spec_subtype.
+  destruct (sub c) as [|[i hs] [|y r]]; cbn [length]; split; intros H; try reflexivity; try discriminate; try lia.
+Qed.
+(* the two views of a component agree: the subtype is the first of the subtypes *)
+Lemma subtype_head c : subtype c = hd_error (subtypes c).
+Proof. unfold subtype. destruct (subtypes c); reflexivity. Qed.
+
+Lemma subtype_unambiguous_only c :
+  (forall k, subtype c = Some k <-> exists hs, sub c = [Hit k hs]) /\
+  (subtype c = None <-> length (sub c) <> 1%nat) /\
+  subtype c = hd_error (subtypes c).
+Proof. split; [intros k; apply subtype_some_iff|]. split; [apply subtype_none_iff|apply subtype_head]. Qed.
+
+Lemma c_tat_iff c : c_tat c = true <-> exists hs, sub c = [Hit S_Trans_AT_KS hs].
+Proof.
+  unfold c_tat. split.
+  - destruct (sub c) as [|[i hs] [|y r]]; try discriminate. intros H. apply Z.eqb_eq in H. subst. eexists; reflexivity.
+  - intros [hs ->]. reflexivity.
+Qed.
+Lemma c_iter_iff c : c_iter c = true <-> exists hs, sub c = [Hit S_Iterative_KS hs].
+Proof.
+  unfold c_iter. split.
+  - destruct (sub c) as [|[i hs] [|y r]]; try discriminate. intros H. apply Z.eqb_eq in H. subst. eexists; reflexivity.
+  - intros [hs ->]. reflexivity.
+Qed.
+
+(* Module.is_trans_at, read off the definition: PKS, starter, no loader, and the starter carries exactly one
+   first-level subtype hit and that is Trans-AT-KS, or a Trans-AT docking domain is among the others *)
+Lemma is_trans_at_iff m :
+  is_trans_at m = true <->
+  exists s, m_starter m = Some s /\ is_pks m = true /\ m_loader m = None /\
+            ((exists hs, sub s = [Hit S_Trans_AT_KS hs]) \/ existsb c_atd (m_others m) = true).
+Proof.
+  unfold is_trans_at. change (fun c : comp => lab c =? c14_L_Trans_AT_docking) with c_atd. split.
+  - destruct (m_starter m) as [s|]; [|discriminate].
+    destruct (is_pks m); cbn [andb]; [|discriminate].
+    destruct (m_loader m) as [l|]; cbn [isSome negb]; [discriminate|].
+    rewrite subtype_is_tat. intros H. exists s. repeat split.
+    apply orb_prop in H. destruct H as [H|H]; [left; apply c_tat_iff; exact H|right; exact H].
+  - intros [s [-> [-> [-> H]]]]. cbn [isSome negb andb]. rewrite subtype_is_tat.
+    destruct H as [H|H]; [apply c_tat_iff in H; rewrite H; reflexivity|rewrite H; apply orb_true_r].
+Qed.
+
+Lemma is_iterative_iff m :
+  is_iterative m = true <-> exists s hs, m_starter m = Some s /\ sub s = [Hit S_Iterative_KS hs].
+Proof.
+  unfold is_iterative. split.
+  - destruct (m_starter m) as [s|]; [|discriminate]. rewrite subtype_is_iter. intros H.
+    apply c_iter_iff in H. destruct H as [hs H]. exists s, hs. split; [reflexivity|exact H].
+  - intros [s [hs [-> H]]]. rewrite subtype_is_iter. apply c_iter_iff. eexists; exact H.
+Qed.
+
+(* trans-AT as the run-time specification reads it off the component list *)
+Lemma spec_trans_at_iff cs :
+  spec_trans_at cs = true <->
+  existsb c_pks cs = true /\ existsb c_loader cs = false /\
+  exists s, find c_starter cs = Some s /\
+            ((exists hs, sub s = [Hit S_Trans_AT_KS hs]) \/ existsb c_atd cs = true).
+Proof.
+  unfold spec_trans_at. split.
+  - intros H. apply andb_prop in H. destruct H as [H H3]. apply andb_prop in H. destruct H as [H1 H2].
+    split; [exact H1|]. split; [destruct (existsb c_loader cs); [discriminate|reflexivity]|].
+    destruct (find c_starter cs) as [s|]; [|discriminate]. exists s. split; [reflexivity|].
+    apply orb_prop in H3. destruct H3 as [H3|H3]; [left; apply c_tat_iff; exact H3|right; exact H3].
+  - intros [-> [-> [s [-> H]]]]. cbn [negb andb].
+    destruct H as [H|H]; [apply c_tat_iff in H; rewrite H; reflexivity|rewrite H; apply orb_true_r].
+Qed.
+
+(* a module that obeys the rules and whose starter's subtype call is missing or AMBIGUOUS (no or several
+   first-level subtype hits, whatever their names and order) is trans-AT only through a docking domain; without
+   one it is not trans-AT and can be complete only with a loader *)
+Lemma ambiguous_not_trans_at m s :
+  rules_ok m -> find c_starter (m_comps m) = Some s -> length (sub s) <> 1%nat ->
+  existsb c_atd (m_comps m) = false ->
+  is_trans_at m = false /\ (is_complete m = true -> isSome (m_loader m) = true).
+Proof.
+  intros [_ [_ [_ [_ [_ [Hta _]]]]]] Hs Hn Ha.
+  assert (Hf : is_trans_at m = false).
+  { rewrite Hta. destruct (spec_trans_at (m_comps m)) eqn:E; [|reflexivity]. exfalso.
+    apply spec_trans_at_iff in E. destruct E as [_ [_ [s' [Hs' [[hs Hh]|Hd]]]]].
+    - rewrite Hs in Hs'. inversion Hs'; subst s'. rewrite Hh in Hn. apply Hn. reflexivity.
+    - rewrite Ha in Hd. discriminate. }
+  split; [exact Hf|]. intros Hc. apply is_complete_iff in Hc.
+  destruct Hc as [[_ [Hl _]]|[Ht _]]; [exact Hl|rewrite Hf in Ht; discriminate].
+Qed.
+
+Lemma build_ambiguous_not_trans_at domains ms :
+  Forall (fun c => c_classified c = true) domains -> build_modules_for_cds domains = Ok ms ->
+  Forall (fun m => forall s, find c_starter (m_comps m) = Some s -> length (sub s) <> 1%nat ->
+                   existsb c_atd (m_comps m) = false ->
+                   is_trans_at m = false /\ (is_complete m = true -> isSome (m_loader m) = true)) ms.
+Proof.
+  intros Hc Hb. eapply Forall_impl; [|eapply build_layout; eassumption].
+  intros m Hr s. apply ambiguous_not_trans_at. exact Hr.
+Qed.
+
+(* the seed-7 shape: KS with two first-level subtype hits (Trans-AT-KS listed first), ACP, KR *)
+Lemma ambiguous_ks_example :
+  exists m1 m2,
+    build_modules_for_cds
+      [mkComp 41 [Hit 1 []; Hit 3 []] 0 10; mkComp 1 [] 1 20; mkComp 40 [] 2 30] = Ok [m1; m2] /\
+    map cid (m_comps m1) = [0; 1] /\ map cid (m_comps m2) = [2] /\
+    is_trans_at m1 = false /\ is_complete m1 = false /\
+    map subtype (m_comps m1) = [None; None] /\ map subtypes (m_comps m1) = [[]; []].
+Proof. do 2 eexists. split; [vm_compute; reflexivity|]. repeat split. Qed.
+
+(* an unambiguous Trans-AT-KS with a nested transATor clade call: one complete trans-AT module *)
+Lemma nested_tat_example :
+  exists m,
+    build_modules_for_cds
+      [mkComp 41 [Hit 1 [Hit 6 []]] 0 10; mkComp 1 [] 1 20; mkComp 40 [] 2 30] = Ok [m] /\
+    is_trans_at m = true /\ is_complete m = true /\
+    map subtype (m_comps m) = [Some 1; None; None] /\ map subtypes (m_comps m) = [[1; 6]; []; []].
+Proof. eexists. split; [vm_compute; reflexivity|]. repeat split. Qed.
+
+(* across genes: a lone ambiguous KS is not merged with the next gene's ACP, KR; an unambiguous one is *)
+Lemma ambiguous_ks_combine_example :
+  exists p c,
+    build_modules_for_cds [mkComp 41 [Hit 1 []; Hit 3 []] 0 10] = Ok p /\
+    build_modules_for_cds [mkComp 1 [] 1 10; mkComp 40 [] 2 20] = Ok c /\
+    combine_modules true c p = Ok (None, p, c).
+Proof. do 2 eexists. repeat split; vm_compute; reflexivity. Qed.
